@@ -187,8 +187,20 @@ def run_live(ctx, d):
         last = l.split(' ; ')[-1]
         head = last.split('|')[0].split(',', 4)
         st, cfg = head[0].split(' ')[-1], (head[4] if len(head) > 4 else '?')
+        # the OPEN this side sent (printed with what it advertises): the configuration must follow from *both* OPENs
+        import re as _re
+        sent = _re.findall(r'open\[4=(\d);ap=([^\]]*)\]', l)
+        loc = [] if c['desc']['local'] == '-' else c['desc']['local'].split(',')
         if 'PANIC' in l:
             ctx.violation('the live session panicked on an OPEN', case=c['desc'], impl=last[:200], line=c['line'][:400])
+        elif len(sent) != 1:
+            ctx.violation('live session: expected exactly one OPEN to be sent', case=c['desc'], impl=l[:300], line=c['line'][:400])
+        elif sorted(x for x in sent[0][1].split(',') if x) != sorted('%s:3' % f for f in loc):
+            ctx.violation('live session: the OPEN sent does not advertise ADD-PATH send+receive for exactly the configured families',
+                          case=c['desc'], impl=l[:300], line=c['line'][:400])
+        elif cfg != '?' and cfg.split('/')[0] != str(int(sent[0][0] == '1' and c['desc']['four'] == 1)):
+            ctx.violation('live session: four-octet decoding is not enabled exactly when both OPENs carry the capability (sent OPEN: %s, peer OPEN: %d)'
+                          % (sent[0][0], c['desc']['four']), case=c['desc'], impl=last[:200], line=c['line'][:400])
         elif st != 'OpenConfirm' or cfg != c['exp']:
             ctx.violation('live session: the configuration the connection decodes with differs from the RFC 7911 / capability-65 rule',
                           case=c['desc'], expected='OpenConfirm ' + c['exp'], impl=last[:200], line=c['line'][:400])
